@@ -36,8 +36,20 @@ var palette = []vector3.Float64{
 	vector3.New(0.01, 0., 0.), // same rounding cell as the origin at one decimal place
 }
 
+// positions for the weld oracle: both sides of zero, two pairs sharing a rounding cell at one decimal place
+// (0 / 0.04 and -0.1 / -0.06: round half away from zero gives cells 0, 0, -1, -1)
+var weldPalette = []vector3.Float64{
+	vector3.New(0., 0., 0.),
+	vector3.New(-0.1, 0., 0.),
+	vector3.New(0., 1., 0.),
+	vector3.New(0.04, 0., 0.),
+	vector3.New(-0.06, 0., 0.),
+}
+
 func symPos(name string) vector3.Float64 {
 	switch PosMode {
+	case 4:
+		return weldPalette[zz.Int(name+".pal", 0, zz.Bound("PAL")-1)]
 	case 1:
 		return palette[zz.Choose(name+".pal", zz.Bound("PAL"))]
 	case 2:
